@@ -77,6 +77,9 @@ func modA(k int32) []byte {
 	m.Tables = []wasmb.Table{{Elem: wasmb.FuncRef, Lim: wasmb.Limits{Min: 4}}}
 	m.Elems = []wasmb.Elem{{Mode: 0, Offset: wasmb.ConstI32(0), Funcs: []uint32{inc}}, {Mode: 1, Funcs: []uint32{inc}}}
 	m.Exports = append(m.Exports, wasmb.Export{Name: "tab", Kind: wasmb.KindTable, Idx: 0})
+	// an immutable funcref global holding inc: importing it is an import edge like any other
+	m.Globals = []wasmb.Global{{Type: wasmb.FuncRef, Mut: false, Init: wasmb.ConstRefFunc(inc)}}
+	m.Exports = append(m.Exports, wasmb.Export{Name: "gref", Kind: wasmb.KindGlobal, Idx: 0})
 	// peek(addr): the exporter's view of its memory, which importers share and may grow after the
 	// exporter is closed
 	m.AddFunc(i32, i32, nil, (&wasmb.Code{}).LocalGet(0).I32Load(0).B, "peek")
@@ -125,6 +128,27 @@ func modEF(k int32, slot int32, failing bool) []byte {
 	m.Imports = append(m.Imports, wasmb.Import{Module: "a", Name: "tab", Kind: wasmb.KindTable, Table: wasmb.Table{Elem: wasmb.FuncRef, Lim: wasmb.Limits{Min: 4}}})
 	mul := m.AddFunc(i32, i32, nil, (&wasmb.Code{}).LocalGet(0).I32Const(k).I32Mul().B, "mul")
 	m.Elems = []wasmb.Elem{{Mode: 0, Offset: wasmb.ConstI32(slot), Funcs: []uint32{mul}}}
+	return m.Encode()
+}
+
+// modG imports NOTHING of A but its immutable funcref global; viaglob(x) puts the reference into its own
+// table and calls it.
+func modG() []byte {
+	m := &wasmb.Module{}
+	i32 := []wasmb.ValType{wasmb.I32}
+	m.Imports = append(m.Imports, wasmb.Import{Module: "a", Name: "gref", Kind: wasmb.KindGlobal, GlobalType: wasmb.FuncRef})
+	t := m.AddType(i32, i32)
+	m.Tables = []wasmb.Table{{Elem: wasmb.FuncRef, Lim: wasmb.Limits{Min: 2}}}
+	m.AddFunc(i32, i32, nil, (&wasmb.Code{}).I32Const(1).GlobalGet(0).TableSet(0).LocalGet(0).I32Const(1).CallIndirect(t, 0).B, "viaglob")
+	return m.Encode()
+}
+
+// modH imports a function of the HOST module "hostm" (kind M: hf(x) = x + 1000).
+func modH() []byte {
+	m := &wasmb.Module{}
+	i32 := []wasmb.ValType{wasmb.I32}
+	hf := m.ImportFunc("hostm", "hf", i32, i32)
+	m.AddFunc(i32, i32, nil, (&wasmb.Code{}).LocalGet(0).Call(hf).I32Const(3).I32Add().B, "viahost")
 	return m.Encode()
 }
 
@@ -185,6 +209,8 @@ type runner struct {
 	twin            *side
 	curA            int // index of the open A registered as "a" (-1 none)
 	everA           bool
+	curM            int // index of the open host module "hostm" (-1 none)
+	everM           bool
 	poison          bool         // custom allocator whose Free poisons the memory
 	freed           int          // buffers freed so far (only the real side ever closes anything mid-run)
 	extra           []api.Module // anonymous second instances of the definer's compiled module
@@ -311,7 +337,7 @@ func poisonDiff(got, want string) bool {
 func (c09) Run(t *tape.Tape, cfg sim.Config) (res sim.Result) {
 	old := debug.SetGCPercent(-1)
 	defer debug.SetGCPercent(old)
-	r := &runner{t: t, res: &res, ctx: context.Background(), engine: cfg.Engine, curA: -1}
+	r := &runner{t: t, res: &res, ctx: context.Background(), engine: cfg.Engine, curA: -1, curM: -1}
 	if cfg.Class == "dangling-reference" {
 		return r.dangling()
 	}
@@ -377,9 +403,22 @@ func (r *runner) instantiateOn(s *side, kind byte, k int32, via int, rtIdx int) 
 		bin = modE(k, 1+k%3)
 	case 'F':
 		bin = modEF(k, 1+k%3, true)
+	case 'G':
+		bin = modG()
+	case 'H':
+		bin = modH()
 	}
 	rt := s.rts[rtIdx]
 	in := &instance{kind: kind, k: k, rt: rtIdx, definer: -1, glob: -1, slots: [3]int{-1, -1, -1}}
+	if kind == 'M' {
+		// a host module instance: guests importing from it must keep working when it is closed and dropped
+		mod, err := rt.NewHostModuleBuilder("hostm").NewFunctionBuilder().WithFunc(func(x uint32) uint32 { return x + 1000 }).Export("hf").Instantiate(r.ctx)
+		if err != nil {
+			return nil, err
+		}
+		in.mod = mod
+		return in, nil
+	}
 	cfg := wazero.NewModuleConfig().WithName(name)
 	if via == 0 {
 		mod, err := rt.InstantiateWithConfig(r.ctx, bin, cfg)
@@ -511,6 +550,19 @@ func (r *runner) step(shared bool) {
 		k = r.followUp[0]
 		r.followUp = r.followUp[1:]
 	}
+	if k >= 200 {
+		// forced probe: an importer whose definer was just dropped and collected is called
+		if j := k - 200; j < len(r.real.insts) && !r.real.insts[j].closed && j != r.real.pausedInst {
+			x := uint64(t.Choose(100))
+			switch in := r.real.insts[j]; in.kind {
+			case 'G':
+				r.compareCall(fmt.Sprintf("call #%d G.viaglob(%d) [its definer #%d was dropped and collected]", j, x, in.definer), j, "viaglob", x)
+			case 'H':
+				r.compareCall(fmt.Sprintf("call #%d H.viahost(%d) [its host module #%d was dropped and collected]", j, x, in.definer), j, "viahost", x)
+			}
+		}
+		return
+	}
 	if k >= 100 {
 		// forced probe: the owner calls through the slot the dropped importer wrote
 		if r.curA >= 0 && !r.real.insts[r.curA].dropped && r.curA != r.real.pausedInst {
@@ -521,7 +573,7 @@ func (r *runner) step(shared bool) {
 	}
 	switch k {
 	case 0: // instantiate
-		kind := "ABCDE"[t.Weighted(3, 3, 3, 2, 3)]
+		kind := "ABCDEGHM"[t.Weighted(3, 3, 3, 2, 3, 2, 2, 1)]
 		if r.forceImporter {
 			kind = 'B'
 			r.forceImporter = false
@@ -529,8 +581,14 @@ func (r *runner) step(shared bool) {
 		if kind == 'A' && r.curA >= 0 {
 			kind = 'B'
 		}
-		if (kind == 'B' || kind == 'D' || kind == 'E') && r.curA < 0 {
+		if (kind == 'B' || kind == 'D' || kind == 'E' || kind == 'G') && r.curA < 0 {
 			kind = 'A'
+		}
+		if kind == 'H' && r.curM < 0 {
+			kind = 'M'
+		}
+		if kind == 'M' && r.everM {
+			kind = 'C' // one host module per run (the twin never closes it: the name stays taken there)
 		}
 		if kind == 'A' && r.everA {
 			// one NAMED definer per run (the twin never closes it, so its name stays taken there); but the
@@ -592,8 +650,11 @@ func (r *runner) step(shared bool) {
 			}
 			return
 		}
-		if kind == 'B' || kind == 'D' || kind == 'E' {
+		if kind == 'B' || kind == 'D' || kind == 'E' || kind == 'G' {
 			ri.definer, ti.definer = r.curA, r.curA
+		}
+		if kind == 'H' {
+			ri.definer, ti.definer = r.curM, r.curM
 		}
 		if kind == 'E' {
 			delete(r.leftover, int(1+kk%3))
@@ -604,8 +665,12 @@ func (r *runner) step(shared bool) {
 			r.curA = len(r.real.insts) - 1
 			r.everA = true
 		}
+		if kind == 'M' {
+			r.curM = len(r.real.insts) - 1
+			r.everM = true
+		}
 	case 1: // call
-		i := r.pickInst("ABCDE", true)
+		i := r.pickInst("ABCDEGH", true)
 		if i < 0 || i == r.real.pausedInst {
 			return
 		}
@@ -622,6 +687,10 @@ func (r *runner) step(shared bool) {
 			}
 		case 'E':
 			r.compareCall(fmt.Sprintf("call #%d E.mul(%d)", i, x), i, "mul", x)
+		case 'G':
+			r.compareCall(fmt.Sprintf("call #%d G.viaglob(%d) [imports only the funcref global of #%d]", i, x, in.definer), i, "viaglob", x)
+		case 'H':
+			r.compareCall(fmt.Sprintf("call #%d H.viahost(%d) [imports from host module #%d]", i, x, in.definer), i, "viahost", x)
 		case 'B':
 			fn := tape.Pick(t, []string{"twice", "viatab", "viaseg", "memchk"})
 			r.compareCall(fmt.Sprintf("call #%d B.%s(%d) [imports from #%d]", i, fn, x, in.definer), i, fn, x)
@@ -679,7 +748,7 @@ func (r *runner) step(shared bool) {
 			r.log("passref A#%d -> C#%d.slot%d err=%v", a, c, slot, err)
 		}
 	case 3: // close instance
-		i := r.pickInst("ABCDE", true)
+		i := r.pickInst("ABCDEGHM", true)
 		if i < 0 || i == r.real.pausedInst {
 			return
 		}
@@ -689,6 +758,9 @@ func (r *runner) step(shared bool) {
 		r.closedOrDropped = true
 		if i == r.curA {
 			r.curA = -1
+		}
+		if i == r.curM {
+			r.curM = -1
 		}
 		r.res.Stat("fault.close_instance", 1)
 		r.log("close #%d (%c) err=%v", i, in.kind, err)
@@ -709,7 +781,7 @@ func (r *runner) step(shared bool) {
 		r.res.Stat("fault.close_compiled", 1)
 		r.log("closeCompiled #%d err=%v", i, err)
 	case 5: // drop the harness's references
-		i := r.pickInst("ABCDE", false)
+		i := r.pickInst("ABCDEGHM", false)
 		if i < 0 || i == r.real.pausedInst {
 			return
 		}
@@ -720,6 +792,9 @@ func (r *runner) step(shared bool) {
 			if i == r.curA {
 				r.curA = -1
 			}
+			if i == r.curM {
+				r.curM = -1
+			}
 		}
 		if in.compiled != nil {
 			in.compiled.Close(r.ctx)
@@ -729,6 +804,16 @@ func (r *runner) step(shared bool) {
 		if in.kind == 'E' && r.curA >= 0 && t.Chance(1, 2) {
 			r.followUp = []int{0, 6, 100 + int(1+in.k%3)}
 			r.forceImporter = true
+		}
+		if in.kind == 'A' || in.kind == 'M' {
+			// a definer is gone: collect, let another compilation happen (the engine's bookkeeping of compiled
+			// code moves), collect again, then use what imports from it
+			for j, o := range r.real.insts {
+				if (o.kind == 'G' || o.kind == 'H') && o.definer == i && !o.closed && t.Chance(2, 3) {
+					r.followUp = []int{6, 0, 6, 200 + j}
+					break
+				}
+			}
 		}
 		r.closedOrDropped = true
 		r.res.Stat("fault.drop_host_references", 1)
